@@ -126,6 +126,30 @@ PROPS["C11"] = dict(
                  "operands the property leaves open (fractions, '++1', +MODE, lists for -type, unknown printf directives, regex syntax errors other than '[') are only required not to panic"],
 )
 
+PROPS["C12"] = dict(
+    level_text="fnmatch() on whole strings is transcribed into TLA+ as a recursive relation (wildcards, backslash quoting, bracket expressions with "
+               "negation, ranges, classes, the literal unmatched '[', the never-matching trailing backslash, ASCII case folding); TLC enumerates "
+               "every pattern up to LP characters with and without folding against a universe of 177 subject strings, checks laws of the "
+               "relation (literal patterns match only themselves, no '*' => one unit per character, '*' monotone, [!x] complements [x]) and prints "
+               "for each pattern the set of subjects it matches; the real find is run per pattern with -lname over links whose targets are the "
+               "subjects and with -name / -path over files named after them; random longer patterns with tailored subjects are validated by TLC.",
+    level_note="Trusted: TLC; the harness's fixture (links / files per subject, UTF-8 encoding of code points). The reference relation was compared "
+               "with glibc fnmatch(3) during development (drivers/glob_sanity.py); that comparison is not part of the check. Out of the property's "
+               "domain and skipped: '^' negation, reversed ranges, [. .] [= =], malformed [: :], backslash inside brackets, non-ASCII or "
+               "mixed-case ranges and [:upper:]/[:lower:] under case folding.",
+    mc=[dict(module="mc/MC_Glob.tla", cfg=dict(quick="mc/MC_Glob_quick.cfg", thorough="mc/MC_Glob_thorough.cfg"), workers=8)],
+    record=dict(quick=500, thorough=10000),
+    selftest=dict(quick=40, thorough=200),
+    trace=dict(module="trace/T_Glob.tla", cfg="trace/T_Glob.cfg"),
+    trace_chunk=300,
+    rule="MC: every pattern up to LP over {a A * ? [ ] ! - \\ .} x {fold, no fold} against 177 subjects (all strings of 1-2 characters over "
+         "{a A b ] - ! \\ [ / .}, all 3-character strings over {a / . newline}, e-acute, a+e-acute, an emoji); "
+         "trace: random patterns up to 12 units (stars, classes, ranges, negations, stray brackets and regex metacharacters) with 6-15 subjects "
+         "derived from the pattern by mutation.",
+    exhaustive_note="bounded-exhaustive over patterns up to LP",
+    assumptions=["-name is judged on subjects that can be file names (no '/', not '.' or '..')"],
+)
+
 _WALK_NOTE = ("Trusted: TLC; the harness's materialisation of tree values (mkdir/symlink) and the in-process call of find_main with captured "
               "output. Unreadable directories cannot be produced as root in-process and are exercised by C11's fixture only. Link targets are "
               "non-links or dangling (no link-to-link chains).")
